@@ -42,14 +42,17 @@ def in_library(stack):
     return "go-sse.(*Joe)" in head or "/joe.go" in head
 
 
-def collect_traces(ctx, focus, total, tag, agg, chunk=250, race=False):
+def collect_traces(ctx, focus, total, tag, agg, chunk=250, race=False, runner=None, base=None):
     """Runs `total` scenarios in chunks; crashes and blocked calls are reported; returns the list of trace files."""
     traces = []
-    base = ctx.seed * 1000000 + 1
+    if base is None:
+        base = ctx.seed * 1000000 + 1
+    if runner is None:
+        runner = lambda n, b, tg: run_scenarios(ctx, focus, n, b, tg, race)
     done = 0
     while done < total:
         n = min(chunk, total - done)
-        trace, crashed, blocked = run_scenarios(ctx, focus, n, base + done, tag, race)
+        trace, crashed, blocked = runner(n, base + done, tag)
         traces.append(trace)
         if crashed:
             agg["crashes"] += 1
@@ -69,7 +72,7 @@ def collect_traces(ctx, focus, total, tag, agg, chunk=250, race=False):
             # C07: a verdict only if the same scenario blocks again in two fresh runs; then one is enough
             again = 0
             for _ in range(2):
-                _, c2, b2 = run_scenarios(ctx, focus, 1, blocked["seed"], tag + "-reblock", race)
+                _, c2, b2 = runner(1, blocked["seed"], tag + "-reblock")
                 if b2:
                     again += 1
             if again == 2:
@@ -194,8 +197,8 @@ def model_check(ctx, names, agg):
         agg["mc"].append({"config": n, "explores": what, "distinct_states": r.distinct, "liveness": bool(kw.get("liveness"))})
 
 
-def trace_check(ctx, focus, total, tag, agg, race=False, chunk=250):
-    traces = collect_traces(ctx, focus, total, tag, agg, chunk=chunk, race=race)
+def trace_check(ctx, focus, total, tag, agg, race=False, chunk=250, runner=None, base=None):
+    traces = collect_traces(ctx, focus, total, tag, agg, chunk=chunk, race=race, runner=runner, base=base)
     for i, tr in enumerate(traces):
         nev = sum(1 for _ in open(tr))
         nsc = sum(1 for l in open(tr) if '"e":"reset"' in l)
@@ -242,6 +245,135 @@ def classify(rej):
     return "invariant:" + (m.group(1) if m else "?")
 
 
+# --------------------------------------------------------------------------- direction A: TLC behaviours steered through the real Joe
+
+A3 = dict(subs=["s0", "s1", "s2"], sub_topics={"s0": ["a"], "s1": ["a"], "s2": ["a"]})
+STEER_CONFIGS = {
+    # name: (JoeMC constants, DownAfter, replayers to run the behaviours with, what it explores)
+    "fan3": (dict(**A3, pubs=["p0k0", "p0k1"], pub_topics={"p0k0": ["a"], "p0k1": ["a"]}, downs=[], last_ids={}, pub_after={"p0k1": "p0k0"},
+                  cancel_subs=["s0", "s1", "s2"], faults=1), 0, ["none", "finite-manual"],
+             "3 subscribers of one topic, one publisher's 2 messages, one failing Send / Flush (or Put / Replay) anywhere, any cancellations"),
+    "fan3-2f": (dict(**A3, pubs=["p0k0", "p1k0"], pub_topics={"p0k0": ["a"], "p1k0": ["a"]}, downs=[], last_ids={}, pub_after={},
+                     cancel_subs=["s1"], faults=2, with_replayer=False), 0, ["none"],
+                "3 subscribers of one topic, 2 concurrent publishers, two failing Send / Flush calls (possibly in one hand-out)"),
+    "topics": (dict(subs=["s0", "s1", "s2"], sub_topics={"s0": ["a", "b"], "s1": ["b"], "s2": []}, pubs=["p0k0", "p0k1", "p1k0"],
+                    pub_topics={"p0k0": ["a", "b"], "p0k1": ["b"], "p1k0": ["c"]}, downs=["k1"], last_ids={}, pub_after={"p0k1": "p0k0"},
+                    cancel_subs=["s0"], faults=0), 2, ["none", "valid-auto"],
+               "topic sets that overlap twice, once, not at all, and an empty topic list; a Shutdown after 2 messages"),
+    "resume": (dict(subs=["s0", "s1", "s2"], sub_topics={"s0": ["a"], "s1": ["a", "b"], "s2": ["b"]}, pubs=["h0", "h1", "h2", "p0k0"],
+                    pub_topics={"h0": ["a", "b"], "h1": ["b"], "h2": ["a", "b"], "p0k0": ["a", "b"]}, downs=[], last_ids={"s1": "h0", "s2": "h1", "s0": "h2"},
+                    pub_after={"h1": "h0", "h2": "h1"}, cancel_subs=["s1"], faults=0), 0, ["finite-manual", "finite-auto", "valid-manual", "valid-auto"],
+               "3 resuming subscribers (presenting an old ID, the newest ID, an ID not yet issued) racing one publisher's 3 messages and a concurrent one"),
+    "resume-small": (dict(subs=["s0", "s1"], sub_topics={"s0": ["a"], "s1": ["a"]}, pubs=["h0", "h1", "h2", "h3"],
+                          pub_topics={"h0": ["a"], "h1": ["a"], "h2": ["a"], "h3": ["a"]}, downs=[], last_ids={"s0": "h0", "s1": "h1"},
+                          pub_after={"h1": "h0", "h2": "h1", "h3": "h2"}, cancel_subs=[], faults=1, rcap=2), 0, ["finite-manual"],
+                     "a replayer of 2 slots, 4 messages: the presented ID may be evicted when the replay starts; one fault"),
+    "shutdown": (dict(subs=["s0", "s1"], sub_topics={"s0": ["a"], "s1": ["a"]}, pubs=["p0k0", "p1k0"], pub_topics={"p0k0": ["a"], "p1k0": ["a"]},
+                      downs=["k1", "k2"], last_ids={}, pub_after={}, cancel_subs=["s0"], ctx_downs=["k2"], faults=1), 1, ["none", "finite-manual"],
+                 "2 subscribers, 2 concurrent publishers, 2 Shutdown calls (one with a done context) after the first message, one fault, a cancellation"),
+    "shutdown-early": (dict(subs=["s0", "s1"], sub_topics={"s0": ["a"], "s1": ["a"]}, pubs=["p0k0"], pub_topics={"p0k0": ["a"]},
+                            downs=["k1", "k2"], last_ids={}, pub_after={}, cancel_subs=["s0", "s1"], faults=0), 0, ["none"],
+                       "Shutdown racing the very first calls (before / while Joe is initialised), 2 concurrent Shutdown calls"),
+    "replayer-faults": (dict(subs=["s0", "s1"], sub_topics={"s0": ["a"], "s1": ["a"]}, pubs=["h0", "h1", "p0k0"],
+                             pub_topics={"h0": ["a"], "h1": ["a"], "p0k0": ["a"]}, downs=[], last_ids={"s0": "h0", "s1": "h0"},
+                             pub_after={"h1": "h0"}, cancel_subs=["s0"], faults=2), 0, ["finite-manual"],
+                        "2 resuming subscribers, two faults among Put error / Put panic / Replay error / Replay panic / failing replayed Send or Flush"),
+}
+
+
+def steer_behaviours(ctx, name, num, seed):
+    """Random behaviours of JoeMC (via JoeSched.tla, tlc -simulate) for one configuration -> list of step lists."""
+    kw, down_after, _, _ = STEER_CONFIGS[name]
+    subs, pubs, downs = kw["subs"], kw["pubs"], kw["downs"]
+    consts = {"Subs": set(subs), "Pubs": set(pubs), "Downs": set(downs), "None": NONE,
+              "PubAfter": fn({p: kw["pub_after"].get(p, NONE) for p in pubs}), "WithReplayer": kw.get("with_replayer", True), "RCap": kw.get("rcap", 0),
+              "SubTopics": fn({s: set(kw["sub_topics"][s]) for s in subs}), "PubTopics": fn({p: set(kw["pub_topics"][p]) for p in pubs}),
+              "LastIDs": fn({s: kw["last_ids"].get(s, NONE) for s in subs}), "FaultBudget": kw["faults"],
+              "CancelSubs": set(kw["cancel_subs"]), "CtxDowns": set(kw.get("ctx_downs", ())), "DownAfter": down_after}
+    mod = "JS_" + re.sub(r"[^A-Za-z0-9_]", "_", name)
+    d = core.write_mc(ctx, mod, "JoeSched", consts, init="SInit", nxt="SNext", invariants=["Export"])
+    r = core.run_tlc(ctx, d, mod, workers=1, simulate="num=%d" % num, depth=400, seed=seed, timeout=600)
+    if r.violated:
+        raise core.ToolFailure("JoeSched.tla: unexpected %s in configuration %r" % (r.violated, name))
+    seen, out = set(), []
+    for steps in core.tlc_json_lines(r.stdout_path):
+        key = json.dumps(steps)
+        if key not in seen:
+            seen.add(key)
+            out.append(steps)
+    return out
+
+
+def steer_cases(ctx, names, num, tag):
+    """Writes the behaviours of the named configurations, each paired with every replayer kind of the configuration, to one ndjson file."""
+    path = os.path.join(ctx.work, "joe-steer-%s.cases.ndjson" % tag)
+    total = 0
+    per = {}
+    with open(path, "w") as f:
+        for name in names:
+            kw, _, kinds, what = STEER_CONFIGS[name]
+            beh = steer_behaviours(ctx, name, num, ctx.seed * 7919 + len(name))
+            per[name] = {"behaviours": len(beh), "replayers": kinds, "explores": what}
+            for i, steps in enumerate(beh):
+                kind = kinds[i % len(kinds)]
+                if not kw.get("with_replayer", True):
+                    kind = "none"
+                cfg = {"name": name, "replayer": kind, "rcap": kw.get("rcap", 0),
+                       "subs": {s: {"topics": kw["sub_topics"][s], "lid": kw["last_ids"].get(s, "")} for s in kw["subs"]},
+                       "pubs": {p: {"topics": kw["pub_topics"][p], "after": kw["pub_after"].get(p, "")} for p in kw["pubs"]},
+                       "downs": {k: (k in kw.get("ctx_downs", ())) for k in kw["downs"]}}
+                f.write(json.dumps({"cfg": cfg, "steps": steps}) + "\n")
+                total += 1
+    return path, total, per
+
+
+def run_steered(ctx, cases, n, base, tag, race=False):
+    """Runs behaviours base .. base+n-1 of the cases file against the real Joe (same contract as run_scenarios)."""
+    binp = core.build_harness(ctx, race)
+    trace = os.path.join(ctx.work, "joe-%s-%d.ndjson" % (tag, base))
+    errp = trace + ".err"
+    statp = trace + ".stats"
+    with open(errp, "w") as fe:
+        try:
+            p = subprocess.run([binp, "joe-steer", "-in", cases, "-from", str(base), "-n", str(n), "-o", trace, "-stats", statp], stderr=fe,
+                               stdout=subprocess.DEVNULL, timeout=1800, env=dict(core.GOENV, VERIF_SEED=str(ctx.seed)))
+            rc = p.returncode
+        except subprocess.TimeoutExpired:
+            raise core.ToolFailure("joe-steer driver timed out (base %d)" % base)
+    err = open(errp, errors="replace").read()
+    last = re.findall(r"^SCENARIO (\d+)$", err, re.M)
+    last_seed = int(last[-1]) if last else None
+    if rc == 0:
+        return trace, None, None
+    if rc == 3:
+        return trace, None, dict(seed=last_seed, focus="steer", dump=err[err.find("BLOCKED"):][:6000])
+    m = re.search(r"^(panic: .*|fatal error: .*)$", err, re.M)
+    if m:
+        i = err.find(m.group(1))
+        return trace, dict(seed=last_seed, focus="steer", panic=m.group(1), stack=err[i:i + 3000]), None
+    raise core.ToolFailure("joe-steer driver failed rc=%d: %s" % (rc, err[-2000:]))
+
+
+def steer_check(ctx, names, num, tag, agg):
+    """Direction A: TLC's behaviours of the named configurations, steered through the real Joe, what it did validated by JoeTrace.tla."""
+    if agg.get("stop"):
+        return
+    cases, total, per = steer_cases(ctx, names, num, tag)
+    agg.setdefault("steer", {"configs": {}, "behaviours": 0, "stats": {}})
+    agg["steer"]["configs"].update(per)
+    agg["steer"]["behaviours"] += total
+    trace_check(ctx, "steer", total, "steer-" + tag, agg, chunk=400, base=0,
+                runner=lambda n, b, tg: run_steered(ctx, cases, n, b, tg))
+    for f in os.listdir(ctx.work):
+        if f.startswith("joe-steer-" + tag) and f.endswith(".stats"):
+            try:
+                st = core.read_json(os.path.join(ctx.work, f))
+            except Exception:
+                continue
+            for k, v in st.items():
+                agg["steer"]["stats"][k] = agg["steer"]["stats"].get(k, 0) + v
+
+
 def new_agg():
     return dict(crashes=0, blocked=[], scenarios=0, events=0, traces=0, samples=[], notes={}, mc=[])
 
@@ -254,11 +386,15 @@ def joe_evidence(ctx, agg, rule, assumptions):
         "evaluations": agg["events"], "distinct_nontrivial": agg["scenarios"],
         "rule": rule, "exhaustive": False,
         "model_checking": agg["mc"], "trace_events_validated": agg["events"], "process_crashes": agg["crashes"],
+        "steered_behaviours": agg.get("steer", {}),
     }
     core.write_evidence(ctx, "model_checking", cov, [
         "the model checking is exhaustive for the stated small configurations only; the real Joe is observed under seeded schedules (GOMAXPROCS 1/2/16, random yields in every hook), which sample the interleavings",
         "event order in a trace agrees with happens-before by the hook discipline (release before, acquire after; rendezvous logged by the receiver)",
         "subscribers' Send / Flush return",
+        "steered_behaviours: behaviours of JoeMC.tla drawn by `tlc -simulate` (JoeSched.tla) are replayed against the real Joe with every hook point as a gate; "
+        "steering is best effort (stats.Stalled = behaviours that fell back to free running where Go's select had a choice the behaviour had made) and never a "
+        "verdict by itself: what the real Joe did is validated by JoeTrace.tla like every other trace",
     ] + list(assumptions))
 
 
@@ -273,6 +409,7 @@ def run_C03(ctx):
     agg = new_agg()
     model_check(ctx, ["order"] if ctx.quick else ["order", "big-faults"], agg)
     trace_check(ctx, "mix", 500 if ctx.quick else 6000, "mix", agg)
+    steer_check(ctx, ["fan3", "topics", "fan3-2f"], 150 if ctx.quick else 2500, "c03", agg)
     joe_evidence(ctx, agg, "Delivery / Complete / ProgramOrder / Flushed / BeforeCancel (guard of RetSub) checked by TLC over all interleavings of the configurations listed; " + COMMON_RULE, [])
 
 
@@ -280,6 +417,7 @@ def run_C04(ctx):
     agg = new_agg()
     model_check(ctx, ["resume", "resume-evicting"] if ctx.quick else ["resume", "resume-evicting", "big-faults"], agg)
     trace_check(ctx, "resume", 500 if ctx.quick else 6000, "resume", agg)
+    steer_check(ctx, ["resume", "resume-small"], 200 if ctx.quick else 3000, "c04", agg)
     joe_evidence(ctx, agg, "Resume / NoDuplicates and the replay guards (a replayed Send must be the next missed event) over all interleavings of Subscribe with concurrent "
                  "Publish calls; traces with the real FiniteReplayer / ValidReplayer behind a recording wrapper, both ID modes; " + COMMON_RULE,
                  ["replayer capacity / TTL large enough to hold everything published in a scenario"])
@@ -289,6 +427,7 @@ def run_C06(ctx):
     agg = new_agg()
     model_check(ctx, ["faults"] if ctx.quick else ["faults", "big-faults", "two-shutdowns"], agg)
     trace_check(ctx, "faults", 600 if ctx.quick else 8000, "faults", agg)
+    steer_check(ctx, ["fan3-2f", "replayer-faults", "shutdown"], 150 if ctx.quick else 2500, "c06", agg)
     if not ctx.quick:
         trace_check(ctx, "faults", 1500, "faults-race", agg, race=True)
     joe_evidence(ctx, agg, "NoPanic / NoLateCall / ErrReturned (guard of RetSub) over all interleavings incl. a failure racing the cancellation of the same subscriber; scenarios run in "
@@ -300,6 +439,7 @@ def run_C07(ctx):
     agg = new_agg()
     model_check(ctx, ["shutdown"] if ctx.quick else ["shutdown", "shutdown2", "big-liveness", "two-shutdowns"], agg)
     trace_check(ctx, "shutdown", 500 if ctx.quick else 6000, "shutdown", agg)
+    steer_check(ctx, ["shutdown", "shutdown-early", "topics"], 150 if ctx.quick else 2500, "c07", agg)
     joe_evidence(ctx, agg, "AllReturn (liveness, weak fairness of every process step), deadlock freedom, ShutdownValues / AtMostOneCloser by TLC; in traces AllReturned is evaluated at the end of "
                  "every scenario and a call that has not returned after 10 s in 3 of 3 runs is a violation; " + COMMON_RULE,
                  ["a timeout is a verdict only when reproduced in two fresh runs of the same scenario"])
@@ -309,5 +449,6 @@ def run_C17(ctx):
     agg = new_agg()
     model_check(ctx, ["faults"] if ctx.quick else ["faults", "big-faults"], agg)
     trace_check(ctx, "faults", 600 if ctx.quick else 8000, "isolation", agg)
+    steer_check(ctx, ["fan3", "replayer-faults", "fan3-2f"], 150 if ctx.quick else 2500, "c17", agg)
     joe_evidence(ctx, agg, "Delivery / Complete for every subscriber that has not itself failed, PutError, AfterPanic over all interleavings with one fault anywhere; traces with a scripted "
                  "replayer that returns an error or panics on its k-th Put / Replay and subscribers of which a seeded subset fails; " + COMMON_RULE, [])
